@@ -46,6 +46,20 @@ class H2ProtocolAssumedError(Exception):
         self.data = data
 
 
+def _origin_form(target: bytes) -> bytes:
+    # A request target in absolute-form (RFC 7230 5.3.2), which a
+    # server must accept, names the resource its path and query name.
+    if not target[:8].lower().startswith((b"http://", b"https://")):
+        return target
+    rest = target[target.index(b"://") + 3 :]
+    for index, char in enumerate(rest):
+        if char == ord("/"):
+            return rest[index:]
+        elif char == ord("?"):
+            return b"/" + rest[index:]
+    return b"/"
+
+
 def _is_h2_preface(event: h11.Request) -> bool:
     return event.method == b"PRI" and event.target == b"*" and event.http_version == b"2.0"
 
@@ -286,7 +300,7 @@ class H11Protocol:
                 headers=headers,
                 http_version=request.http_version.decode(),
                 method=request.method.decode("ascii").upper(),
-                raw_path=request.target,
+                raw_path=_origin_form(request.target),
                 state=self.connection_state,
             )
         )
